@@ -4,8 +4,9 @@ import json, os, shutil, subprocess, sys
 wt, mid, prop = sys.argv[1:4]
 dst = os.path.join("/verif/seeded", mid)
 os.makedirs(dst, exist_ok=True)
-for n in ("patch.diff", "demo.cpp", "NOTES.md"):
-    shutil.copyfile(os.path.join(wt, n), os.path.join(dst, n))
+for n in ("patch.diff", "demo.cpp", "NOTES.md", "demo.sh"):
+    if os.path.exists(os.path.join(wt, n)):
+        shutil.copyfile(os.path.join(wt, n), os.path.join(dst, n))
 ver = {}
 for line in open(os.path.join(wt, "VERIFY.txt")):
     if "=" in line:
